@@ -121,11 +121,17 @@ def run(ctx, proof):
     # observation of the knowledge that remains - compared with a fresh computation
     import envlib
     from incomplete_cooperative.run.model import GAP_FUNCTIONS
-    for _ in range(12 if ctx.quick else 120):
+    for _ in range(20 if ctx.quick else 160):
         n = rng.choice([3, 4, 4, 5])
         comp = rng.choice(comps_run)
         klass = "sam" if comp.startswith("sam") else "sa"
         v = any_game(rng, n, klass)
+        if klass == "sam" and rng.random() < 0.5:
+            # budget games v(S) = -min(k, |S|): many coalitions are pinned down by the bounds before they are revealed, and
+            # revealing such a coalition still tightens others under the monotone approximation
+            n = rng.choice([4, 5, 5])
+            kb = rng.randint(1, n - 1)
+            v = [-min(kb, games.popcount(i)) for i in range(2 ** n)]
         gapn = rng.choice(list(GAP_FUNCTIONS.keys()))
         env, _ = envlib.make_env(n, comp, gapn, None, games.minimal_ids(n), [v])
         expl = [c.id for c in env.explorable_coalitions]
@@ -152,6 +158,34 @@ def run(ctx, proof):
                                "env_table": str(bl.table_of(env.incomplete_game)), "fresh_table": str(fresh)})
                 break
         ctx.count("env_traces", comp)
+    # budget games v(S) = -min(k, |S|) under the monotone approximations, revealed in random orders: many coalitions are pinned
+    # down by the bounds before they are revealed, yet revealing them still tightens other upper bounds
+    for n, kb in ([(5, 2), (5, 3), (4, 2)] if ctx.quick else [(nn, kk) for nn in (4, 5, 6) for kk in range(1, nn)]):
+        for comp in (["sam_apx_1"] if ctx.quick else ["sam_apx_1", "sam_apx_10"]):
+            v = [-min(kb, games.popcount(i)) for i in range(2 ** n)]
+            env, _ = envlib.make_env(n, comp, "exploitability", None, games.minimal_ids(n), [v])
+            expl = [c.id for c in env.explorable_coalitions]
+            found = False
+            for walk in range(8 if ctx.quick else 30):
+                if found:
+                    break
+                env.reset()
+                order = rng.sample(range(len(expl)), len(expl))[: (10 if walk % 2 else len(expl))]
+                chosen = []
+                for a in order:
+                    env.step(a)
+                    chosen.append(a)
+                    K = sorted(games.minimal_ids(n) + [expl[x] for x in chosen])
+                    st, fresh = bl.impl_compute(comp, n, v, K)
+                    ctx.evaluations += 1
+                    if st == "ok" and bl.table_of(env.incomplete_game) != fresh:
+                        d = [(i, r1, r2) for i, (r1, r2) in enumerate(zip(bl.table_of(env.incomplete_game), fresh)) if r1 != r2][:3]
+                        ctx.violation(f"budget game -min({kb},|S|), n={n}, {comp}: after reset and steps {chosen} the environment's bounds differ "
+                                      f"from a fresh computation on the same knowledge (id, env row, fresh row): {d}",
+                                      {"comp": comp, "n": n, "v": v, "steps": chosen, "K": K, "differences": str(d)})
+                        found = True
+                        break
+            ctx.count("env_traces", comp + "/budget")
     # model correspondence on histories (SA computers on SA games, SAM on SAM games)
     mism = campaign.run_histories(ctx, ["superadditive", "superadditive_cached"], "sa",
                                   [(3, 20, 12), (4, 10, 14)] if ctx.quick else [(3, 200, 30), (4, 150, 30), (5, 40, 30)], [],
